@@ -1,5 +1,6 @@
 (* C12: Unmarshal then Marshal is idempotent and deterministic. *)
-From Errdef Require Import Base.Str Base.Outcome Model.Core Model.Convert Model.Unmarshal Check.UM.
+From Errdef Require Import Base.Str Base.Outcome Model.Core Model.Convert Model.Unmarshal Model.JsonVal Check.UM.
+From Flocq Require Import IEEE754.BinarySingleNaN.
 
 (* one unmarshaling (compared with the model as in C10) plus what the harness saw of
    x -> r -> n -> r' -> n' *)
@@ -8,8 +9,34 @@ Record case := {
   c_native : bool;       (* every field value of x is a JSON-native Go value (what a JSON document decodes to) *)
   c_marshals : bool;     (* Marshal(Unmarshal(x)) produced a document n *)
   c_fix : bool;          (* Unmarshal(n) succeeded and Marshal of it is JSON-equal to n *)
-  c_lib : option bool    (* x was produced by marshaling a library error: n is JSON-equal to x *)
+  c_lib : option bool;   (* x was produced by marshaling a library error: n is JSON-equal to x *)
+  c_redec : list (sval * option dval)
+     (* the JSON step observed on typed scalar values: json.Marshal(v), then decoding into `any`
+        as jsonToDecodedData does (None: json.Marshal failed) *)
 }.
+
+(* validation of Model/JsonVal.redecode - and of the strconv contract the theorems
+   C09_scalar_values_roundtrip / C12_binding_fixpoint assume for float32 - against encoding/json:
+   every clause but float32 must agree exactly; for a float32 the decoded float64 must be finite
+   and round back to it (that IS the hypothesis reparse32_ok, checked on this value) *)
+Definition ds_eqb (a b : dval) : bool :=
+  match a, b with
+  | DS t v, DS t' v' => N.eqb (s_id t) (s_id t') && skind_eqb (s_kind t) (s_kind t') && sval_eqb v v'
+  | _, _ => false
+  end.
+Definition redec_ok (p : sval * option dval) : bool :=
+  match p with
+  | (SF32 b, Some (DS t (SF64 g))) =>
+      N.eqb (s_id t) 13 && is_finite (f32_of_bits b) && is_finite (f64_of_bits g) &&
+      (bits_of_f32 (f64_to_f32 (f64_of_bits g)) =? b)%Z
+  | (SF32 b, None) => negb (is_finite (f32_of_bits b))
+  | (v, od) =>
+      match redecode (fun x => x) v, od with
+      | Some d, Some d' => ds_eqb d d'
+      | None, None => true
+      | _, _ => false
+      end
+  end.
 
 Definition ok (c : case) : bool :=
   let o := c_obs (c_um c) in
@@ -19,7 +46,7 @@ Definition ok (c : case) : bool :=
   (negb (str_eqb (uo_class o) "ok") || negb (c_native c) || negb (c_marshals c) || c_fix c) &&
   match c_lib c with Some b => b | None => true end.
 
-Definition corr (c : case) : bool := UM.corr (c_um c).
+Definition corr (c : case) : bool := UM.corr (c_um c) && forallb redec_ok (c_redec c).
 
 Definition bad_ok (cs : list case) : list N := bad_idx ok cs.
 Definition bad_corr (cs : list case) : list N := bad_idx corr cs.
